@@ -138,6 +138,12 @@ def pred_key(g, origin):
     e = origin_stmt_expr(g, origin)
     if e is not None and e[0] == "binop":
         return strip_ids(e)
+    # a variant test of stored state (`let Some(x) = self.f.as_ref() else ..`, `match self.f { None => .. }`): the same fact as is_some()
+    pe = origin_place_expr(g, origin)
+    if pe is not None:
+        pe = strip_ids(pe)
+        if isinstance(pe, tuple) and pe and pe[0] == "field" and not contains(pe, lambda x: isinstance(x, tuple) and x and x[0] in ("call", "ret", "var", "cl_arg", "upvar")):
+            return ("variant", pe)
     return None
 
 
